@@ -154,10 +154,19 @@ Proof. exact lock_released_always_proof. Qed.
 Print Assumptions lock_released_always.
 
 Example router_usable_nonvacuous :
-  let st := {| locked := false; published := [S2B "/a"] |} in
-  run_txn TUpdates st [OpHandle (S2B "/b"); OpDelete (S2B "/a")] (EndPanic 3%N) = Some (TPanic 3%N, st) /\
-  run_txn TUpdates st [OpHandle (S2B "/b"); OpDelete (S2B "/a")] EndOk
-    = Some (TOk, {| locked := false; published := [S2B "/b"] |}) /\
+  let st := {| locked := false; published := [(S2B "GET /a", 0%N); (S2B "TRACE /a", 0%N)] |} in
+  let ops := [OpHandle (S2B "POST /b") 1%N; OpTruncate [S2B "GET"; S2B "TRACE"]; OpUpdate (S2B "POST /b") 2%N] in
+  run_txn TUpdates st ops (EndPanic 3%N) = Some (TPanic 3%N, st) /\
+  run_txn TManual st ops EndErr = Some (TErr, st) /\
+  run_txn TUpdates st ops EndOk = Some (TOk, {| locked := false; published := [(S2B "POST /b", 2%N)] |}) /\
   (* had the lock stayed held, the next write would block: the model can tell *)
   write_possible {| locked := true; published := [] |} = false.
+Proof. vm_compute. repeat split. Qed.
+
+(* a response started only by a flush counts as started: untouched by the recovery *)
+Example flush_starts_response :
+  let '(r, w, log) := recovery_mw ex_q [] (run_actions [AFlush FFlushError] (Some (PStr (S2B "x")))) w_reset [] in
+  r = Returned /\ u_wrote w = true /\ u_status w = 200 /\ u_body w = [] /\
+  let '(_, w2, _) := recovery_mw ex_q [] (run_actions [AFlush FNone] (Some (PStr (S2B "x")))) w_reset [] in
+  u_status w2 = 500.
 Proof. vm_compute. repeat split. Qed.
